@@ -281,6 +281,10 @@ pub struct Expect {
     pub terms: Vec<Term>,
     pub unknown_skipped: u64,
     pub note: &'static str,
+    /// index in `evs` of a SETTINGS frame the RFC lets an implementation accept or reject (repeated
+    /// unknown identifier): stopping right before it with a settings/frame error is as good as
+    /// delivering it and carrying on
+    pub dontcare_at: Option<usize>,
 }
 
 fn fixed_field_kind(ty: u64) -> bool {
@@ -291,6 +295,7 @@ pub fn expect(s: &[u8], ending: Ending) -> Expect {
     let (frames, tail) = rf::segment(s);
     let mut evs = Vec::new();
     let mut skipped = 0;
+    let mut dontcare_at: Option<usize> = None;
     for f in &frames {
         match rf::classify(f.ty) {
             TypeClass::Unknown => {
@@ -301,6 +306,7 @@ pub fn expect(s: &[u8], ending: Ending) -> Expect {
                     evs,
                     terms: vec![Term::Error(rf::H3_FRAME_UNEXPECTED)],
                     unknown_skipped: skipped,
+                        dontcare_at,
                     note: "h2-reserved",
                 };
             }
@@ -318,6 +324,7 @@ pub fn expect(s: &[u8], ending: Ending) -> Expect {
                         evs,
                         terms,
                         unknown_skipped: skipped,
+                        dontcare_at,
                         note,
                     };
                 }
@@ -339,21 +346,18 @@ pub fn expect(s: &[u8], ending: Ending) -> Expect {
                             evs,
                             terms: vec![Term::Error(rf::H3_SETTINGS_ERROR), Term::Error(rf::H3_FRAME_ERROR)],
                             unknown_skipped: skipped,
+                        dontcare_at,
                             note: "settings-semantic-error",
                         };
                     }
                     rf::SettingsVerdict::DontCare => {
+                        // either accepted (then judged on) or rejected right here
                         let mut a: Vec<(u64, u64)> = entries.iter().filter(|(id, _)| rf::KNOWN_SETTINGS.contains(id)).cloned().collect();
                         a.sort_unstable();
-                        let mut with = evs.clone();
-                        with.push(Ev::Settings(a));
-                        // either accept (then continue) or reject: too open-ended to continue, stop judging here
-                        return Expect {
-                            evs: with,
-                            terms: vec![Term::Error(rf::H3_SETTINGS_ERROR)],
-                            unknown_skipped: skipped,
-                            note: "dontcare-repeated-unknown-setting",
-                        };
+                        if dontcare_at.is_none() {
+                            dontcare_at = Some(evs.len());
+                        }
+                        evs.push(Ev::Settings(a));
                     }
                 },
                 Ok(Parsed::H2Reserved(_)) | Ok(Parsed::Unknown(_)) => unreachable!(),
@@ -391,6 +395,7 @@ pub fn expect(s: &[u8], ending: Ending) -> Expect {
         evs,
         terms,
         unknown_skipped: skipped,
+                        dontcare_at,
         note,
     }
 }
@@ -443,6 +448,7 @@ fn payloads_for(ty: u64) -> Vec<Vec<u8>> {
             vec![0x06, 0x10, 0x06, 0x11],
             vec![0x21, 0x00, 0x06, 0x10],
             vec![0x40, 0x06, 0x10],
+            vec![0x21, 0x00, 0x21, 0x01, 0x06, 0x10], // repeated unknown identifier: accept-or-reject zone
         ],
         rf::T_CANCEL_PUSH | rf::T_GOAWAY | rf::T_MAX_PUSH_ID => vec![
             vec![],
@@ -551,6 +557,12 @@ fn check_one(s: &[u8], ending: Ending, chunks: &[Vec<u8>], pend: bool, ex: &Expe
         viol(rep, &format!("panic[{}]", p), format!("stream {} ({:?}) chunks {:?}: panicked: {}", hex_short(s, 24), ending, chunks.iter().map(|c| c.len()).collect::<Vec<_>>(), p), case());
         return (evs, term);
     }
+    if let Some(k) = ex.dontcare_at {
+        // don't-care SETTINGS (repeated unknown identifier): rejecting it on the spot is fine
+        if evs.len() == k && evs[..] == ex.evs[..k] && matches!(term, Term::Error(c) if c == rf::H3_SETTINGS_ERROR || c == rf::H3_FRAME_ERROR) {
+            return (evs, term);
+        }
+    }
     // events must be a prefix-equal match: h3 may not have produced all events if it stopped early
     let n = evs.len().min(ex.evs.len());
     let mut first_diff = None;
@@ -630,6 +642,9 @@ fn check_string(s: &[u8], all_chunkings_upto: usize, n_random: usize, rng: &mut 
         let ex = expect(s, ending);
         rep.count(&format!("expected[{}]", term_short(&ex.terms[0])));
         rep.count(&format!("reference_note[{}]", ex.note));
+        if ex.dontcare_at.is_some() {
+            rep.count("reference_dontcare[repeated-unknown-setting]");
+        }
         rep.add("unknown_frames_skipped", ex.unknown_skipped);
         rep.add("data_frames_delivered", ex.evs.iter().filter(|e| matches!(e, Ev::Data(..))).count() as u64);
         let mut outcomes: Vec<(Vec<Ev>, Term)> = Vec::new();
@@ -712,6 +727,20 @@ pub fn fuzz_one(s: &[u8], mask: u64, fin: bool, pend: bool, rep: &mut Report) {
     if s.is_empty() {
         return;
     }
+    // a frame of type 0x41 (WebTransport stream signal) has no length by design: everything after
+    // it belongs to the extension (C19), not to RFC 9114 7.1 framing
+    let mut at = 0;
+    while at < s.len() {
+        let Ok((ty, n)) = rv::decode(&s[at..]) else { break };
+        if ty == 0x41 {
+            rep.count("fuzz_skipped[webtransport signal]");
+            return;
+        }
+        at += n;
+        let Ok((len, n)) = rv::decode(&s[at..]) else { break };
+        at += n;
+        at = at.saturating_add(len.min(usize::MAX as u64) as usize);
+    }
     let ending = if fin { Ending::Fin } else { Ending::Open };
     let ex = expect(s, ending);
     let chunks = cut_by_mask(s, mask);
@@ -723,6 +752,27 @@ pub fn fuzz_one(s: &[u8], mask: u64, fin: bool, pend: bool, rep: &mut Report) {
     push_outcome(&mut outcomes, o1, s, ending, &whole, &[s.len()], rep);
     let o2 = drive(&chunks, ending, pend);
     push_outcome(&mut outcomes, o2, s, ending, &chunks, &[s.len()], rep);
+}
+
+/// Seed inputs for the libFuzzer target `frames` (8 mask bytes, 1 flag byte, then the stream).
+pub fn fuzz_seeds(n: usize, seed: u64) -> Vec<Vec<u8>> {
+    let mut rng = Rng::new(seed ^ 0xC02F);
+    let shapes = single_shapes();
+    let mut out = Vec::new();
+    for _ in 0..n {
+        let mut s = Vec::new();
+        for _ in 0..1 + rng.usize(3) {
+            s.extend(rng.pick(&shapes).bytes());
+        }
+        if s.len() > 250 {
+            s.truncate(250);
+        }
+        let mut b = rng.next().to_le_bytes().to_vec();
+        b.push(rng.below(4) as u8);
+        b.extend(s);
+        out.push(b);
+    }
+    out
 }
 
 fn run_case(gen: &str, index: u64, seed: u64, tier: Tier, rep: &mut Report) {
